@@ -2,7 +2,7 @@
 import os, json, struct
 from lzgen import *
 
-NEEDS_RELEASE = {'C07'}
+NEEDS_RELEASE = {'C04', 'C07'}
 TRUSTED_BASE = [
     'Coq 8.16.1 kernel (coqc); vm_compute used for finite facts; no native_compute',
     'no axioms declared; Print Assumptions of every property theorem must be "Closed under the global context"',
@@ -492,6 +492,28 @@ def gen_l2_badcopy_streams(rng, count):
         out.append(b)
     return out
 
+def gen_l2_stale_rep_streams(rng, count):
+    """LZMA2 streams (malformed on purpose): a compressed chunk ending in a match of distance D, then an uncompressed chunk that
+    RESETS THE DICTIONARY and is shorter than D, then a compressed chunk WITHOUT state reset (control 0x80) whose first symbol is a
+    literal (a matched literal: its match byte lies before the reset), a short rep or a rep0 copy.  -> list of bytes"""
+    reqs = []
+    for k in range(count):
+        lc, lp, pb3 = rand_props(rng, lzma2=True)
+        nlit = rng.range(8, 60)
+        D = rng.range(2, nlit)
+        mid = rng.bytes(rng.range(1, D - 1))
+        third = ['L%d' % rng.below(256), 'S', 'R0,%d' % rng.range(2, 9)][k % 3]
+        if rng.chance(1, 2): third += '.L%d' % rng.below(256)
+        reqs.append('ref_lzma2 lenient=1 chunks=Z3:%d,%d,%d:0:%s.M%d,%d/U1:%s/Z0:-:0:%s' % (lc, lp, pb3, '.'.join('L%d' % rng.below(256) for _ in range(nlit)), D, rng.range(2, 12), hx(mid), third))
+    out = []
+    for e in ref_encode(reqs):
+        if e is None: raise InfraError('lenient serialiser rejected a stale-rep stream')
+        b = e[0]
+        w = walk_lzma2(b)[0]             # the lenient serialiser adds one byte to every compressed chunk: take it back from the good first one
+        un = w['unpacked'] - 1
+        out.append(b[:w['off']] + bytes([(w['control'] & 0xE0) | ((un - 1) >> 16)]) + struct.pack('>H', (un - 1) & 0xFFFF) + b[w['off'] + 3:])
+    return out
+
 def gen_l2_props_sweep(rng, transitions=40):
     """well-formed LZMA2 streams covering EVERY legal properties triple (lc + lp <= 4, pb <= 4: 75 of them) as the first chunk's
     properties, and property changes between chunks - in particular pairs where a careless size comparison (lc+lp against lc+pb
@@ -838,6 +860,14 @@ def run_C06(ck):
             if f['desc']['nblocks'] == 0: break
             m = xz_file(f['blocks'], f['check'], mb_width=f['mbw'], tweak={'records': fn})
             if m != f['bytes']: add(desc, m, f, False)
+        # junk between the LZMA2 end byte and the block padding, with the Compressed Size field, the Index and every CRC agreeing
+        # with the longer block: the filter does not use the bytes the header promises
+        if f['desc']['nblocks']:
+            b0_ = f['blocks'][0]
+            for junk_ in (b'\x00', b'\x00' * 4, b'\x5a\xa5\x01'):
+                nb_ = [XzBlock(b0_.payload + junk_, b0_.content, with_packed=True, with_unpacked=b0_.with_unpacked, header_pad=min(b0_.header_pad, 200), mb_width=b0_.mb_width, props=b0_.props)] + f['blocks'][1:]
+                try: add('junk after the LZMA2 end byte inside the declared compressed size', xz_file(nb_, f['check'], mb_width=f['mbw']), f, False)
+                except ValueError: pass
         b = f['bytes']
         crc_carrying = f['check'] in (1, 4) and f['desc']['nblocks'] > 0
         nflips = 25 if ck.tier == 'quick' else 120
@@ -1112,6 +1142,13 @@ def run_C18(ck):
         L_ = len(f['bytes'])
         for tail_ in (other['bytes'], bytes(4), bytes(8) + other['bytes'], rng.bytes(rng.range(1, 9))):
             add('after_stream_reader_boundary', f['bytes'] + tail_, rd=rng.choice(['%d,%d' % (L_, rng.range(1, 9)), 'std:buf:%d' % L_, '%d,1' % L_, '1']))
+        # ... and the reader FAILS (once, with each error kind) at the probe that follows the first stream: an error is an error,
+        # not "end of input" (only the fill_buf of the end-of-stream probe is hit: refill index 1, the second fill, under the policy L,k)
+        fi_ = files.index(f)
+        for ki_, kind_ in enumerate(['other', 'eof', 'wouldblock', 'invalid', 'pipe', 'interrupted']):
+            if (ki_ + fi_) % 3: continue
+            tail_ = [other['bytes'], bytes(4), b'\x01'][(ki_ + fi_) % 3 if False else ki_ % 3]
+            add('after_stream_reader_fault', f['bytes'] + tail_, rd='%d,%d rfail=1 ekind=%s' % (L_, 1 + ki_, kind_))
         for padlen in (4, 8, 12, 16):
             add('stream_padding=%d' % padlen, f['bytes'] + bytes(padlen))
             add('padding_then_stream', f['bytes'] + bytes(padlen) + other['bytes'])
@@ -1224,6 +1261,36 @@ def run_C04(ck):
                 ck.count('xz_binary_decodes')
                 if p.returncode != 0 or p.stdout != c['data']:
                     ck.violation('oracle', 'xz -dc does not decode xz_compress output back to the input', replay_dict(c))
+    # inputs of 4 GiB and more through xz_compress (synthetic reader, sink keeping the total length and the last 64 bytes; release
+    # build): sizes no in-memory case reaches.  Judged against the .xz format alone (the extracted model cannot process 4 GiB): the
+    # Index must list one record with the true unpacked size, and header + padded block + Index + footer must add up to the total
+    def mb_(t, pos):
+        v = sh = 0
+        while True:
+            x = t[pos]; pos += 1; v |= (x & 0x7F) << sh; sh += 7
+            if not x & 0x80: return v, pos
+    bigs_ = [(1 << 32) + 5, 70000] if quick else [(1 << 32) + 5, (1 << 32) - 1, 1 << 32, (1 << 33) + 70000, 70000]
+    lines_ = ['xz_enc_big n=%d byte=%d' % (n_, 0 if i_ % 2 == 0 else 0xA5) for i_, n_ in enumerate(bigs_)]
+    for line_, n_, raw_ in zip(lines_, bigs_, run_impl(lines_, release=True)):
+        r_ = parse(raw_); ck.note_case(line_); ck.count('xz_enc_big')
+        bad = None
+        try:
+            if r_.get('verdict') != 'ok': bad = 'xz_compress failed on a %d-byte input: %s' % (n_, raw_[:80])
+            else:
+                t, total = unhx(r_['tail']), int(r_['total'])
+                if t[-2:] != b'YZ': bad = 'footer magic missing'
+                else:
+                    isz = (struct.unpack('<I', t[-8:-4])[0] + 1) * 4
+                    pos = len(t) - 12 - isz
+                    if pos < 0 or t[pos] != 0: bad = 'Index not where Backward Size says'
+                    else:
+                        nrec, pos = mb_(t, pos + 1); unpadded, pos = mb_(t, pos); unpacked, pos = mb_(t, pos)
+                        if nrec != 1: bad = 'Index lists %d records for one block' % nrec
+                        elif unpacked != n_: bad = 'Index unpacked size %d for an input of %d bytes' % (unpacked, n_)
+                        elif 12 + (unpadded + 3) // 4 * 4 + isz + 12 != total: bad = 'Index unpadded size %d does not add up to the %d bytes written' % (unpadded, total)
+        except (KeyError, IndexError, ValueError, struct.error) as e:
+            bad = 'unparsable result %s (%s)' % (raw_[:80], e)
+        if bad: ck.violation('oracle', bad, {'case': line_, 'impl_result': raw_[:300], 'property': 'C04', 'how_to_replay': 'build/harness release binary: echo the case line | lzrs'})
 
 # ------------------------------------------------------------------ streaming helpers
 def stream_calls(data, lens, tail='x', rng=None):
@@ -1287,6 +1354,18 @@ def run_C05(ck):
                 cases.append({'line': 'stream opt=%s calls=%s' % (opt, stream_calls(data, lens, rng=rng if rng.chance(1, 3) else None)),
                               'meta': {'kind': kind, 'opt': opt, 'pieces': lens if len(lens) < 40 else len(lens)}, 'oneshot': one, 'n': len(data), 'npieces': len(lens)})
                 ck.count('kind_' + kind); ck.count('opt_' + opt.split(':')[0])
+    # end-marker streams followed by ALL-ZERO bytes (a range decoder fed zeros decodes symbols happily) or, with a provided size
+    # larger than the true one, by arbitrary bytes - the trailing bytes in a write of their own, right after the marker
+    for si_, s in enumerate([s_ for s_ in streams if s_['style'] == 'marker' and not s_.get('big')][:20 if quick else 150]):
+        b = s['bytes']
+        for ti_, (opt, data, tail_) in enumerate((('rfh', b, bytes(1 + si_ % 7)), ('rfh', b, bytes(20 + si_ % 9)),
+                                                  ('rhp:%d' % (s['n'] + 1), b, bytes([0x5a, si_ % 256, 3])), ('up:%d' % (s['n'] + 1 + si_ % 3), b[:5] + b[13:], bytes(6)))):
+            one = {'line': 'lzma_dec opt=%s in=%s' % (opt, hx(data + tail_)), 'meta': {'kind': 'marker_then_tail', 'opt': opt}}
+            cases.append(one)
+            for lens_ in ([len(data), len(tail_)], [len(data) - 1, 1, len(tail_)], [len(data)] + [1] * len(tail_)):
+                cases.append({'line': 'stream opt=%s calls=%s' % (opt, stream_calls(data + tail_, lens_)), 'meta': {'kind': 'marker_then_tail', 'opt': opt, 'pieces': lens_},
+                              'oneshot': one, 'n': len(data) + len(tail_), 'npieces': len(lens_)})
+                ck.count('kind_marker_then_tail')
     treqs = []
     for k in range(3 if quick else 12):
         lc, lp, pb = rand_props(rng)
@@ -1749,6 +1828,16 @@ def run_C11(ck):
         trail = rng.choice([rng.bytes(tl), bytes(tl)])
         cases.append({'line': 'lzma2_dec in=%s rd=%s' % (hx(s['bytes'] + trail), RD()), 'meta': {'kind': 'lzma2', 'trail': len(trail)}, 'expect_pos': len(s['bytes']), 'expect_out': s['out']})
         ck.count('lzma2')
+    # chunks of 1 MiB and more (bit 4 of the control byte is the top bit of the size), followed by trailing bytes
+    breqs_ = []
+    for size_ in ([1048577, 2097152] if quick else [1048576, 1048577, 1572864, 2031617, 2097152]):
+        pb_ = ProgBuilder(None); exact_size_syms(pb_, size_)
+        breqs_.append('ref_lzma2 chunks=Z3:3,0,2:0:%s' % pb_.text())
+    for e_ in ref_encode(breqs_):
+        if e_ is None: raise InfraError('reference serialiser rejected a big C11 chunk')
+        for trail in (b'', b'\x00\x01\x02'):
+            cases.append({'line': 'lzma2_dec in=%s rd=%s' % (hx(e_[0] + trail), 'all' if trail else 'std:buf:7'), 'meta': {'kind': 'lzma2', 'trail': len(trail), 'big': len(e_[1])}, 'expect_pos': len(e_[0]), 'expect_out': e_[1]})
+            ck.count('lzma2_chunk_of_1MiB_or_more')
     for f in gen_xz_files(rng, 60 if quick else 400, [p for p in pool if len(p['bytes']) < 3000]):
         trail = rng.bytes(rng.choice([0, 1, 2, 4, 12])) if rng.chance(3, 4) else bytes(rng.choice([1, 4, 8]))
         cases.append({'line': 'xz_dec in=%s rd=%s' % (hx(f['bytes'] + trail), RD()), 'meta': {'kind': 'xz', 'trail': len(trail)}, 'must_err': len(trail) > 0, 'expect_out': f['out']})
@@ -1993,7 +2082,13 @@ def run_C13(ck):
     for b in gen_l2_badcopy_streams(rng, 20 if quick else 120):
         inputs.append(('lzma2_dec in=%s' % hx(b), 'copy_across_reset'))
     small = [p for p in pool if len(p['bytes']) < 2000] or pool
-    for f in gen_xz_files(rng, 25 if quick else 150, small):
+    xzf_ = gen_xz_files(rng, 25 if quick else 150, small)
+    # files whose check type the crate does not support (SHA-256 = 10 with its 32-byte field, and ids with 4/8/16/64-byte fields):
+    # whatever is done about the check field must not depend on how much the reader has buffered
+    for fi_, f in enumerate([f for f in xzf_ if f['blocks']][:8 if quick else 40]):
+        for cid in ((10, 2), (10, 7), (10, 13), (10, 5))[fi_ % 4]:
+            inputs.append(('xz_dec in=%s' % hx(xz_file(f['blocks'], cid, mb_width=f['mbw'])), 'unsupported_check'))
+    for f in xzf_:
         inputs.append(('xz_dec in=%s' % hx(f['bytes']), 'valid'))
         for desc, m in xz_mutants(rng, f, 6):
             inputs.append(('xz_dec in=%s' % hx(m), 'mutant'))
@@ -2479,6 +2574,10 @@ def run_C07(ck):
                 except ValueError: pass
             for v in (1 << 62, (1 << 63) - 1, 0):
                 add('xz_dec in=%s' % hx(xz_file([XzBlock(b0.payload, b0.content, with_packed=True, with_unpacked=True, packed_override=v, unpacked_override=v)] + f['blocks'][1:], f['check'])), 'xz_size_extremes')
+    for b_ in gen_l2_stale_rep_streams(rng, 9 if quick else 60):
+        add('lzma2_dec in=%s' % hx(b_), 'stale_rep_after_dict_reset')
+        add('raw_lzma2 ops=d:%s' % hx(b_), 'stale_rep_after_dict_reset')
+        add('xz_dec in=%s' % hx(xz_file([XzBlock(b_, b'')], 0)), 'stale_rep_after_dict_reset')
     f0 = next((f for f in xzs if f['blocks']), None)
     if f0:
         for t_, b2_ in blocks_with_header_size_byte(f0['blocks'][0], f0['check']):
